@@ -400,7 +400,8 @@ def empty_buffers(fn):
     for loop in ast.walk(fn):
         if isinstance(loop, (ast.For, ast.While)):
             for n in ast.walk(loop):
-                if isinstance(n, ast.If) and n.orelse:
+                if isinstance(n, ast.If):
+                    # an `if` without `else` stores nothing on the other path
                     a, b = stored(n.body), stored(n.orelse)
                     if a or b:
                         rows.append((sorted(bufs), sorted(a), sorted(b)))
